@@ -289,6 +289,12 @@ pub mod merge_channel {
 }
 
 // ---------------------------------------------------------------------------
+// Metadata hand-off: what the metadata worker merges into the channel's slot
+// ---------------------------------------------------------------------------
+
+pub use crate::cluster::metadata::update::verif_hooks as metadata_update;
+
+// ---------------------------------------------------------------------------
 // Speculative execution
 // ---------------------------------------------------------------------------
 
